@@ -23,6 +23,9 @@ var c19Texts = func() []string {
 		"S3F3 <I1 1> . S3F5 <I2 2> .", "S3F7 W H->E first . S3F8 H<-E second .", "S3F9 <L <A v0> ...> . S3F11 <L <A v0> ...> .", "S4F1 <U1[3] 1 2 3> .\t", "S4F3 <U2 0x10 0o17 0b11> .\r\n",
 		"S4F5 <L <U1 x[0]> <U1 x[1]>> .", "S2F7 <F4 0.1 1e-46 16777217 v0> .", "S2F9 <F8 0.1 1e-46 16777217 v0> .", "S2F11 <L <F4 0.1> <F8 0.1> <F4 0.1>> .",
 		"S6F1 <A \"LEFTOVER\" T> .", "S6F1 <A \"LEFT\" 65 $> .", "S6F1 <A \"abc\" \"unclosed> .", "S6F1 <L <A x> <A x>> .", "S6F1 <U1 256> <", "S6F3 <A \"ok\" 0x41> .", "S6F5 <U1 255> .", "\ufeffS1F1 .", "\ufeffS5F3 W <L> .", "\fS5F3 W .", "\u00a0S2F1 <A \"x\"> .\u2028", "S1F1 .\u200b", "S4F7\n// c1\n<L // c2\n <U1 1> // c3\n> // c4\n. // c5\n", "S127F255 W .", "S5F1 W <A> .", "S5F3 <A 0x00 0x7F> .",
+		// candidates that end without a blank before the final point, or in a name: judged only if accepted alone
+		"S1F1 W H->E AreYouThere.", "S1F1 Name.", "S1F1 W H->E Recipe.v2 .", "S1F1 W.", "S1F1.", "S1F1 W H->E.", "S1F1 [W]H<->E n.", "S7F1 <A \"last line\">.", "S7F3 <L <A \"x\"> <A \"y\">>.",
+		"S7F5 <A[1] \"z\">\n.", "S7F7 <U1 1>.S7F9 <U1 2>.",
 	}
 	// printed forms of small templates (reusing the names v0, v1, ... in every message)
 	ts := NewTreeScope(smlAtoms(), 2, 2, 1)
@@ -35,7 +38,7 @@ var c19Texts = func() []string {
 	return t
 }()
 
-var c19Seps = []string{"", " ", "\n", "\r\n\t", " // c\n", "//\n//x\n", "\n\n  \n", "\f", "\u00a0", " \u2028", "\v\n\u3000", "\n\u0085"}
+var c19Seps = []string{"", " ", "\n", "\r\n\t", " // c\n", "//\n//x\n", "\n\n  \n", "\f", "\u00a0", " \u2028", "\v\n\u3000", "\n\u0085", " // note\rmore\n", "// a \"b\rc\r\n", "\t//\r\r\n"}
 
 type parsed struct {
 	views []msgView
